@@ -14,7 +14,7 @@ import random
 
 from vf import cluster as C
 from vf import loggen
-from vf.simharness import FaultPlan, make_cluster, owned, run_sim
+from vf.simharness import FaultPlan, make_cluster, owned, run_sim, idle_ms
 
 TOPIC = "t"
 
@@ -110,7 +110,7 @@ def run_history(P):
                                     max_partition_fetch_bytes=P["max_partition_fetch_bytes"],
                                     fetch_max_wait_ms=P["fetch_max_wait_ms"], request_timeout_ms=P["request_timeout_ms"],
                                     retry_backoff_ms=P["retry_backoff_ms"], check_crcs=P["check_crcs"],
-                                    metadata_max_age_ms=5000)
+                                    metadata_max_age_ms=5000, connections_max_idle_ms=idle_ms(P))
             cons.assign(tps)
             plan.enabled = False
             await cons.start()
